@@ -216,6 +216,11 @@ def line_kind(line):
     return 1 if line[:1] == '%' else 2
 
 
+def run_real(fn, *args):
+    """Run the real function body (never its contract): for witness lemmas on concrete inputs."""
+    return fn(*args)
+
+
 def bytes_seq(b):
     """A bytes value as a list of ints."""
     return list(b)
